@@ -865,6 +865,15 @@ func replayOne(sb *sandbox, p *program, acts []replayAct, base int) ([]*node, er
 		case "tear":
 			t := s.clone()
 			cb := t.other[cacheRel]
+			if a.K <= -100 {
+				// the remains of a kill inside an "atomic" cache write: an empty temporary (-101) or lock (-102) file next to the cache file
+				if _, ok := t.other[cacheRel]; ok {
+					t.other[cacheRel+map[int]string{-101: ".tmp", -102: ".lock"}[a.K]] = ""
+				}
+				e = edge{Act: "tear", K: a.K}
+				s = t
+				break
+			}
 			k := a.K
 			if k > len(cb) {
 				k = len(cb)
